@@ -192,6 +192,7 @@ func (m *MapPollard) Modify(adds []Leaf, delHashes []Hash, proof Proof) error {
 	if err != nil {
 		return err
 	}
+	verifPoint("modify.between")
 
 	err = m.add(adds)
 	if err != nil {
@@ -220,6 +221,7 @@ func (m *MapPollard) add(adds []Leaf) error {
 		if err != nil {
 			return err
 		}
+		verifPoint("modify.addloop")
 
 		m.NumLeaves++
 	}
@@ -909,6 +911,7 @@ func (m *MapPollard) Undo(numAdds uint64, proof Proof, hashes, origPrevRoots []H
 	if err != nil {
 		return fmt.Errorf("Undo errored while undoing added leaves. %v", err)
 	}
+	verifPoint("undo.between")
 
 	err = m.undoDeletion(proof, hashes)
 	if err != nil {
@@ -1163,6 +1166,7 @@ func (m *MapPollard) ingest(delHashes []Hash, proof Proof) error {
 	}
 
 	// Ingest the targets and the intermediate positions and their hashes.
+	verifPoint("ingest.beforeputs")
 	for i, pos := range intermediate.positions {
 		remember := false
 		if m.Full {
@@ -1200,6 +1204,7 @@ func (m *MapPollard) Prune(hashes []Hash) error {
 		}
 
 		m.CachedLeaves.Delete(hash)
+		verifPoint("prune.loop")
 
 		leaf, found := m.Nodes.Get(pos)
 		if !found {
@@ -1468,6 +1473,7 @@ func (m *MapPollard) Read(r io.Reader) (int, error) {
 	}
 	totalBytes += bytes
 	m.NumLeaves = binary.LittleEndian.Uint64(buf[:])
+	verifPoint("read.afterheader")
 
 	// Read the count for the cache leaf elements in the map.
 	bytes, err = r.Read(buf[:])
